@@ -53,6 +53,8 @@ Fmts == { Fmt(<<"{", "m", "}">>, Rec.msg, NoParams), Fmt(<<"{", "m", "e", "s", "
           Fmt(<<"{", "d", "(", "%", "H", ":", "%", "M", ")", "(", "u", "t", "c", ")", "}">>, <<"<date>", "<fmt>", "%", "H", ":", "%", "M", "</fmt>", "<utc>">>, NoParams),
           Fmt(<<"{", "d", "a", "t", "e", "(", "%", "d", "-", "%", "H", ")", "}">>, <<"<date>", "<fmt>", "%", "d", "-", "%", "H", "</fmt>", "<local>">>, NoParams),
           Fmt(<<"{", "d", "}">>, <<"<date>", "<fmt>", "%", "+", "</fmt>", "<local>">>, NoParams),
+          \* a literal percent sign followed by text that looks like the rest of a specifier: "%%#z" is "%" and "#z"
+          Fmt(<<"{", "d", "(", "%", "%", "#", "z", ")", "}">>, <<"<date>", "<fmt>", "%", "%", "#", "z", "</fmt>", "<local>">>, NoParams),
           Fmt(<<"{", "d", "(", "%", "Z", ")", "(", "u", "t", "c", ")", "}">>, <<"<date>", "<fmt>", "%", "Z", "</fmt>", "<utc>">>, NoParams),
           Fmt(<<"{", "d", "(", "%", "z", " ", "%", "Z", ")", "}">>, <<"<date>", "<fmt>", "%", "z", " ", "%", "Z", "</fmt>", "<local>">>, NoParams),
           Fmt(<<"{", "d", "(", "%", "a", "%", "b", "%", "e", "%", "j", "%", "y", ")", "(", "u", "t", "c", ")", "}">>,
